@@ -10,6 +10,11 @@ def _impl_strict(case):
     return hist.impl_compute(case, allow_neg=False, full=False)
 
 
+def _impl_strict_from(args):
+    case, f = args
+    return hist.impl_compute(case, from_day=f, allow_neg=False, full=False)
+
+
 def _boost():
     from harness import fingerprint
     return fingerprint.boost("l4")
@@ -33,9 +38,20 @@ def run(tier, build, replay=None):
     out = core.Outcome("C08", tier)
     proofs = core.check_proofs(build, "C08.v")
     rng = core.Rng(core.seed(), 8)
+    forced_from = None
+    if replay and "ins" not in replay and "case" in replay:      # replay of a from-date violation: {"case": ..., "from": day}
+        forced_from, replay = replay.get("from"), replay["case"]
     cases = [replay] if replay else l2.corpus_cases("C08") + gen_cases(rng, 3000 * _boost() if tier == "quick" else 40000)
     strict = core.pool_map(_impl_strict, cases, init=core.impl_env_setup)
     loose = core.pool_map(l2._impl_matcher, cases, init=core.impl_env_setup)
+    # the verdict must not depend on a from-date: the replay covers all history, not only the window shown
+    fjobs = []
+    for k, c in enumerate(cases):
+        if k % 3 == 0 or replay:
+            days = sorted({hist.local_day(r["ts"]) for r in c["ins"] + c["outs"] + c["intras"]})
+            fjobs.append((k, forced_from if forced_from is not None else max(0, rng.choice(days) + rng.choice([0, 0, 1, -1, 30]))))
+    fres = dict(zip([k for k, _ in fjobs], core.pool_map(_impl_strict_from, [(cases[k], f) for k, f in fjobs], init=core.impl_env_setup)))
+    fday = dict(fjobs)
     lines, idxs = [], []
     for k, (c, lo) in enumerate(zip(cases, loose)):
         if "ok" in lo:
@@ -73,6 +89,13 @@ def run(tier, build, replay=None):
                 out.violation(f"no account ever goes negative but the history is rejected: {st['msg'][:160]}", c, tags={"valid-rejected"})
         else:
             stats["tolerance_zone"] += 1
+        if k in fres:
+            sf = fres[k]
+            rej_f = "err" in sf
+            same = rej_f == rejected and (not rejected or (sf.get("err") == st.get("err") and MSG.search(sf.get("msg", "")) and MSG.search(sf.get("msg", "")).groups() == MSG.search(st.get("msg", "")).groups()))
+            if not same:
+                out.violation(f"the verdict changes with a from-date (day {fday[k]}): without it {'rejected: ' + st.get('msg', '')[:120] if rejected else 'accepted'}, "
+                              f"with it {'rejected: ' + sf.get('msg', '')[:120] if rej_f else 'accepted'}", {"case": c, "from": fday[k]}, tags={"from-date-changes-verdict"})
         # with -n: proceeds and reports the negative balance
         want = oracle.flows(c)
         got = {(c["exchanges"].index(b[0]), c["holders"].index(b[1])): b[2] for b in lo["ok"]["balances"]}
